@@ -283,3 +283,5 @@ def _round7(ctx):
     with ctx.rule('R05.13', "the root cause survives the shutdown: a stale channel wake-up is not an error, and frames behind the client's own exception are discarded, not fatal (shared with C20, C07)", floor=10) as r:
         A.include(ctx, r, 'c20', 'R20.2', pick=(':stale',))
         A.include(ctx, r, 'c07', 'R07.3')
+    with ctx.rule('R05.14', "heartbeats are enabled when both sides ask for them: the negotiated interval is the minimum of the two heartbeat fields (shared with C15)", floor=1) as r:
+        A.include(ctx, r, 'c15', 'R15.1', pick=('heartbeat',))
